@@ -220,8 +220,10 @@ impl RNum {
 
     pub fn powf(a: &RNum, p: f64, nz: &mut Noise) -> RNum {
         let f = a.v.powf(p);
-        let d1 = p * a.v.powf(p - 1.0);
-        let d2 = p * (p - 1.0) * a.v.powf(p - 2.0);
+        // the coefficients p and p(p-1) vanish identically for p = 0 and p in {0, 1}: the terms are
+        // zero whatever the base, including a base of exactly 0 where 0 * 0^-1 would be NaN
+        let d1 = if p == 0.0 { 0.0 } else { p * a.v.powf(p - 1.0) };
+        let d2 = if p == 0.0 || p == 1.0 { 0.0 } else { p * (p - 1.0) * a.v.powf(p - 2.0) };
         Self::chain(a, f, d1, d2, nz)
     }
     pub fn exp(a: &RNum, nz: &mut Noise) -> RNum {
